@@ -161,135 +161,150 @@ func checkC16(c *Ctx) error {
 	for idx, ai := range agents {
 		doc := readme[ai.name]
 		for _, user := range []bool{false, true} {
-			for baseClass := 0; baseClass <= 3; baseClass++ {
-				if !c.Thorough() && idx > 0 && baseClass%2 == 1 {
-					continue
-				}
-				idx, ai, user, baseClass := idx, ai, user, baseClass
-				k.E.Run(fn, func(ps *symx.PathState) []any {
-					m := symx.NewFSModel(ps, "trace", srcRoot)
-					m.BaseClass = baseClass
-					home := ps.Fresh(symx.SString, "HOME")
-					cwd := ps.Fresh(symx.SString, "cwd")
-					for _, s := range []symx.Sym{home, cwd} {
-						ps.Assume(`(str.prefixof "/" ` + s.T + `)`)
-						ps.Assume(`(not (str.suffixof "/" ` + s.T + `))`)
+			for customKind := 0; customKind <= 2; customKind++ { // 0: none, 1: absolute --path, 2: relative --path
+				for baseClass := 0; baseClass <= 3; baseClass++ {
+					if !c.Thorough() && idx > 0 && baseClass%2 == 1 {
+						continue
 					}
-					m.Home, m.Cwd = home, cwd
-					ps.User = m
-					cp := ps.Fresh(symx.SString, "--path")
-					return []any{symx.IntArg(idx), cp, user}
-				}, func(ps *symx.PathState, r *symx.PathResult) {
-					m := ps.User.(*symx.FSModel)
-					paths++
-					if !strings.HasPrefix(r.Outcome, "ok") {
-						c.Inconclusive(fmt.Sprintf("agent %s: path outcome %s", ai.name, r.Outcome))
-						return
-					}
-					// which case is this path? custom path empty or not
-					custom := false
-					var expBase any
-					for _, in := range r.Inputs {
-						_ = in
-					}
-					if len(m.AbsOf) > 0 {
-						custom = true
-						for _, v := range m.AbsOf {
-							expBase = v
+					idx, ai, user, baseClass, customKind := idx, ai, user, baseClass, customKind
+					var cpTerm, cwdTerm, homeTerm string
+					k.E.Run(fn, func(ps *symx.PathState) []any {
+						m := symx.NewFSModel(ps, "trace", srcRoot)
+						m.BaseClass = baseClass
+						home := ps.Fresh(symx.SString, "HOME")
+						cwd := ps.Fresh(symx.SString, "cwd")
+						for _, s := range []symx.Sym{home, cwd} {
+							ps.Assume(`(str.prefixof "/" ` + s.T + `)`)
+							ps.Assume(`(not (str.suffixof "/" ` + s.T + `))`)
 						}
-					} else if user {
-						sub := ai.user
-						if doc != nil {
-							sub = doc.user
+						m.Home, m.Cwd = home, cwd
+						cwdTerm, homeTerm = cwd.T, home.T
+						ps.User = m
+						if customKind == 0 {
+							cpTerm = ""
+							return []any{symx.IntArg(idx), "", user}
 						}
-						expBase = symx.JoinPath(m.Home, sub)
-					} else {
-						sub := ai.project
-						if doc != nil {
-							sub = doc.project
+						cp := ps.Fresh(symx.SString, "--path")
+						cpTerm = cp.T
+						ps.Assume(`(not (str.suffixof "/" ` + cp.T + `))`)
+						if customKind == 1 {
+							ps.Assume(`(str.prefixof "/" ` + cp.T + `)`)
+						} else {
+							ps.Assume(`(not (str.prefixof "/" ` + cp.T + `))`)
+							ps.Assume(`(not (str.prefixof "." ` + cp.T + `))`)
+							ps.Assume(`(> (str.len ` + cp.T + `) 0)`)
 						}
-						expBase = symx.JoinPath(m.Cwd, sub)
-					}
-					expSkill := symx.JoinPath(expBase, ai.skill)
-					expSkillT := symx.TermOf(expSkill)
-					ret0, ret1 := symx.TupleAt(r.Ret, 0), symx.TupleAt(r.Ret, 1)
-					muts := m.MutatingEvents()
-					tr := func() []string {
-						var out []string
-						for _, ev := range m.Events {
-							out = append(out, fmt.Sprintf("%s %v %v", ev.Op, ev.Path, ev.Dst))
+						return []any{symx.IntArg(idx), cp, user}
+					}, func(ps *symx.PathState, r *symx.PathResult) {
+						m := ps.User.(*symx.FSModel)
+						paths++
+						if !strings.HasPrefix(r.Outcome, "ok") {
+							c.Inconclusive(fmt.Sprintf("agent %s: path outcome %s", ai.name, r.Outcome))
+							return
 						}
-						return out
-					}
-					caseName := fmt.Sprintf("custom=%v user=%v base=%d", custom, user, baseClass)
-					if baseClass >= 2 {
-						oblig += 2
-						if symx.IsNilIface(ret1) {
-							violation(map[string]string{"kind": "unusable base accepted", "agent": ai.name, "case": caseName}, map[string]any{"trace": tr()})
-						}
-						if len(muts) > 0 {
-							violation(map[string]string{"kind": "filesystem modified although base is unusable", "agent": ai.name, "case": caseName}, map[string]any{"trace": tr()})
-						}
-						return
-					}
-					oblig++
-					if !symx.IsNilIface(ret1) {
-						violation(map[string]string{"kind": "installation fails", "agent": ai.name, "case": caseName}, map[string]any{"err": symx.ErrID(ret1), "trace": tr()})
-						return
-					}
-					// returned path = <base>/<skill>
-					oblig++
-					queries++
-					if v, mod := ps.Query("(not (= " + symx.TermOf(ret0) + " " + expSkillT + "))"); v != "unsat" {
-						violation(map[string]string{"kind": "wrong installation directory", "agent": ai.name, "case": caseName}, map[string]any{"returned": symx.TermOf(ret0), "expected": expSkillT, "model": mod, "verdict": v})
-					}
-					// every mutating event stays inside <base>/<skill> (MkdirAll of ancestors excepted)
-					for _, ev := range muts {
-						mutEvents++
-						for _, pv := range []any{ev.Path, ev.Dst} {
-							if pv == nil {
-								continue
+						// expected base per the documentation: custom path (made
+						// absolute against cwd) > --user > project directory
+						custom := customKind != 0
+						var expBase any
+						switch {
+						case customKind == 1:
+							expBase = symx.Sym{S: symx.SString, T: cpTerm}
+						case customKind == 2:
+							expBase = symx.JoinPath(symx.Sym{S: symx.SString, T: cwdTerm}, symx.Sym{S: symx.SString, T: cpTerm})
+						case user:
+							sub := ai.user
+							if doc != nil {
+								sub = doc.user
 							}
-							pt := symx.TermOf(pv)
-							oblig++
-							queries++
-							inside := fmt.Sprintf("(or (= %s %s) (str.prefixof (str.++ %s \"/\") %s))", pt, expSkillT, expSkillT, pt)
-							if v, mod := ps.Query("(not " + inside + ")"); v != "unsat" {
-								violation(map[string]string{"kind": "write outside the skill directory", "agent": ai.name, "case": caseName, "op": ev.Op}, map[string]any{"path": pt, "expected_prefix": expSkillT, "model": mod, "verdict": v, "trace": tr()})
+							expBase = symx.JoinPath(symx.Sym{S: symx.SString, T: homeTerm}, sub)
+						default:
+							sub := ai.project
+							if doc != nil {
+								sub = doc.project
 							}
+							expBase = symx.JoinPath(symx.Sym{S: symx.SString, T: cwdTerm}, sub)
 						}
-					}
-					// the installed tree = the embedded tree
-					for _, rel := range tree.rel {
+						expSkill := symx.JoinPath(expBase, ai.skill)
+						expSkillT := symx.TermOf(expSkill)
+						ret0, ret1 := symx.TupleAt(r.Ret, 0), symx.TupleAt(r.Ret, 1)
+						muts := m.MutatingEvents()
+						tr := func() []string {
+							var out []string
+							for _, ev := range m.Events {
+								out = append(out, fmt.Sprintf("%s %v %v", ev.Op, ev.Path, ev.Dst))
+							}
+							return out
+						}
+						caseName := fmt.Sprintf("custom=%v(kind %d) user=%v base=%d", custom, customKind, user, baseClass)
+						if baseClass >= 2 {
+							oblig += 2
+							if symx.IsNilIface(ret1) {
+								violation(map[string]string{"kind": "unusable base accepted", "agent": ai.name, "case": caseName}, map[string]any{"trace": tr()})
+							}
+							if len(muts) > 0 {
+								violation(map[string]string{"kind": "filesystem modified although base is unusable", "agent": ai.name, "case": caseName}, map[string]any{"trace": tr()})
+							}
+							return
+						}
 						oblig++
-						key := symx.TermOf(symx.JoinPath(expSkill, rel))
-						var found *symx.FSNode
-						for nk, n := range m.Nodes {
-							if nk == key || symx.TermOf(m.PathVals[nk]) == key {
-								found = n
-							}
+						if !symx.IsNilIface(ret1) {
+							violation(map[string]string{"kind": "installation fails", "agent": ai.name, "case": caseName}, map[string]any{"err": symx.ErrID(ret1), "trace": tr()})
+							return
 						}
-						if found == nil {
-							// syntactic mismatch: ask the solver whether some node's path equals the expected one
-							for nk, n := range m.Nodes {
+						// returned path = <base>/<skill>
+						oblig++
+						queries++
+						if v, mod := ps.Query("(not (= " + symx.TermOf(ret0) + " " + expSkillT + "))"); v != "unsat" {
+							violation(map[string]string{"kind": "wrong installation directory", "agent": ai.name, "case": caseName}, map[string]any{"returned": symx.TermOf(ret0), "expected": expSkillT, "model": mod, "verdict": v})
+						}
+						// every mutating event stays inside <base>/<skill> (MkdirAll of ancestors excepted)
+						for _, ev := range muts {
+							mutEvents++
+							for _, pv := range []any{ev.Path, ev.Dst} {
+								if pv == nil {
+									continue
+								}
+								pt := symx.TermOf(pv)
+								oblig++
 								queries++
-								if v, _ := ps.Query("(not (= " + symx.TermOf(m.PathVals[nk]) + " " + key + "))"); v == "unsat" {
-									found = n
+								inside := fmt.Sprintf("(or (= %s %s) (str.prefixof (str.++ %s \"/\") %s))", pt, expSkillT, expSkillT, pt)
+								if v, mod := ps.Query("(not " + inside + ")"); v != "unsat" {
+									violation(map[string]string{"kind": "write outside the skill directory", "agent": ai.name, "case": caseName, "op": ev.Op}, map[string]any{"path": pt, "expected_prefix": expSkillT, "model": mod, "verdict": v, "trace": tr()})
 								}
 							}
 						}
-						if found == nil || found.Content != "full:"+tree.hash[rel] || found.Mode != 0o644 {
-							violation(map[string]string{"kind": "installed tree differs", "agent": ai.name, "case": caseName}, map[string]any{"file": rel, "node": found, "trace": tr()})
+						// the installed tree = the embedded tree
+						for _, rel := range tree.rel {
+							oblig++
+							key := symx.TermOf(symx.JoinPath(expSkill, rel))
+							var found *symx.FSNode
+							for nk, n := range m.Nodes {
+								if nk == key || symx.TermOf(m.PathVals[nk]) == key {
+									found = n
+								}
+							}
+							if found == nil {
+								// syntactic mismatch: ask the solver whether some node's path equals the expected one
+								for nk, n := range m.Nodes {
+									queries++
+									if v, _ := ps.Query("(not (= " + symx.TermOf(m.PathVals[nk]) + " " + key + "))"); v == "unsat" {
+										found = n
+									}
+								}
+							}
+							if found == nil || found.Content != "full:"+tree.hash[rel] || found.Mode != 0o644 {
+								violation(map[string]string{"kind": "installed tree differs", "agent": ai.name, "case": caseName}, map[string]any{"file": rel, "node": found, "trace": tr()})
+							}
 						}
-					}
-					oblig++
-					if len(m.Nodes) != len(tree.rel) {
-						violation(map[string]string{"kind": "extra files installed", "agent": ai.name, "case": caseName}, map[string]any{"nodes": len(m.Nodes), "trace": tr()})
-					}
-					if paths%40 == 1 {
-						c.Sample(map[string]any{"agent": ai.name, "case": caseName, "expected_dir_term": expSkillT, "events": tr()})
-					}
-				})
+						oblig++
+						if len(m.Nodes) != len(tree.rel) {
+							violation(map[string]string{"kind": "extra files installed", "agent": ai.name, "case": caseName}, map[string]any{"nodes": len(m.Nodes), "trace": tr()})
+						}
+						if paths%40 == 1 {
+							c.Sample(map[string]any{"agent": ai.name, "case": caseName, "expected_dir_term": expSkillT, "events": tr()})
+						}
+					})
+				}
 			}
 		}
 	}
